@@ -1,1 +1,186 @@
-import BigtreeModel.Basic
+import BigtreeModel.Query
+import BigtreeProofs.Lemmas.QueryAddr
+import BigtreeProofs.Lemmas.QueryPre
+import BigtreeProofs.Lemmas.QueryProps
+import BigtreeProofs.Lemmas.QueryGoTo
+import BigtreeProofs.Lemmas.QueryGoToPath
+import BigtreeProofs.Lemmas.QueryBinary
+import BigtreeProofs.Lemmas.QueryExamples
+/-!
+# C12 — derived node queries agree with their definitions
+
+A node is a root tree `R` plus an address `a` (child indices from the root).  Each query, written
+the way the Python is written (`BigtreeModel/Query.lean`), equals its first-principles definition
+on addresses, for every tree and every node.
+-/
+
+namespace C12
+open Query
+
+/-- `ancestors` = the proper prefixes of the address, nearest first. -/
+theorem ancestors_eq (a : Addr) :
+    ancestors a = (List.range a.length).reverse.map fun k => a.take k :=
+  ancestors_eq_spec a
+
+example : ancestors [0, 1, 0] = [[0, 1], [0], []] := by decide
+
+/-- `descendants` = the pre-order of the node's subtree without the node itself
+    (`subtreeLocs` starts with the node). -/
+theorem descendants_eq (R : Tree) (a : Addr) : descendants R a = (subtreeLocs R a).tail :=
+  descendants_eq_tail R a
+
+example : descendants exTree [0] = [[0, 0], [0, 1], [0, 1, 0]] := by decide
+example : subtreeLocs exTree [0] = [[0], [0, 0], [0, 1], [0, 1, 0]] := by decide
+
+/-- `leaves` = the childless nodes of the subtree, in pre-order. -/
+theorem leaves_eq (R : Tree) (a : Addr) :
+    leaves R a = (subtreeLocs R a).filter fun b => (childrenOf R b).isEmpty := by
+  rw [leaves_eq_filter]
+  apply List.filter_congr
+  intro b _
+  simp only [isLeaf]
+  cases childrenOf R b <;> simp
+
+example : leaves exTree [] = [[0, 0], [0, 1, 0], [1]] := by decide
+
+/-- `siblings` = the other children of the parent, in order; none at the root. -/
+theorem siblings_eq (R : Tree) :
+    siblings R [] = [] ∧
+    ∀ (p : Addr) (t : Tree) (k : Nat), sub R p = some t →
+      siblings R (p ++ [k]) =
+        ((List.range t.children.length).filter fun j => j != k).map fun j => p ++ [j] :=
+  ⟨siblings_nil R, fun _ _ k h => siblings_snoc h k⟩
+
+example : sub exWide [] = some exWide ∧ siblings exWide [2] = [[0], [1], [3], [4]] := by decide
+
+/-- `left_sibling` = the child just before the node in the parent's list (none for a first child
+    and for the root). -/
+theorem left_sibling_eq (R : Tree) :
+    leftSibling R [] = none ∧
+    ∀ (p : Addr) (t : Tree) (k : Nat), sub R p = some t → k < t.children.length →
+      leftSibling R (p ++ [k]) = if k = 0 then none else some (p ++ [k - 1]) :=
+  ⟨leftSibling_nil R, fun _ _ _ h hk => leftSibling_snoc h hk⟩
+
+example : sub exTree [0] = some (.node 1 ['a'] [] [.node 2 ['c'] [] [], .node 3 ['d'] [] [.node 4 ['e'] [] []]])
+    ∧ leftSibling exTree [0, 1] = some [0, 0] ∧ leftSibling exTree [0, 0] = none := by decide
+
+/-- `right_sibling` = the child just after the node (none for a last child and for the root). -/
+theorem right_sibling_eq (R : Tree) :
+    rightSibling R [] = none ∧
+    ∀ (p : Addr) (t : Tree) (k : Nat), sub R p = some t → k < t.children.length →
+      rightSibling R (p ++ [k]) = if k + 1 < t.children.length then some (p ++ [k + 1]) else none :=
+  ⟨rightSibling_nil R, fun _ _ _ h hk => rightSibling_snoc h hk⟩
+
+example : rightSibling exTree [0, 0] = some [0, 1] ∧ rightSibling exTree [0, 1] = none := by decide
+
+/-- `node_path` = all prefixes of the address, root first. -/
+theorem node_path_eq (a : Addr) :
+    nodePath a = (List.range (a.length + 1)).map fun k => a.take k :=
+  nodePath_eq_spec a
+
+example : nodePath [0, 1, 0] = [[], [0], [0, 1], [0, 1, 0]] := by decide
+
+/-- `root` = the empty address. -/
+theorem root_eq (a : Addr) : root a = [] := root_eq_nil a
+
+example : root [0, 1, 0] = [] := by decide
+
+/-- `is_root` holds exactly at the empty address, i.e. when there are no ancestors. -/
+theorem is_root_iff (a : Addr) :
+    (isRoot a = true ↔ a = []) ∧ (isRoot a = true ↔ ancestors a = []) := by
+  refine ⟨isRoot_iff a, ?_⟩
+  rw [isRoot_iff, ancestors_eq_spec]
+  constructor
+  · rintro rfl; rfl
+  · intro h
+    have := congrArg List.length h
+    rw [length_ancestorsSpec] at this
+    exact List.eq_nil_of_length_eq_zero this
+
+example : isRoot [] = true ∧ isRoot [1] = false := by decide
+
+/-- `is_leaf` holds exactly when the node has no children; on a BinaryNode exactly when both
+    slots are empty, which is the same as `is_leaf` of its generic view. -/
+theorem is_leaf_iff :
+    (∀ (R : Tree) (a : Addr) (t : Tree), sub R a = some t → (isLeaf R a = true ↔ t.children = [])) ∧
+    (∀ i n at' l r, isLeafB (.node i n at' l r) = true ↔ l = .nil ∧ r = .nil) ∧
+    (∀ (b : BTree) (t : Tree), b.toTrees = [t] → isLeafB b = t.children.isEmpty) := by
+  refine ⟨?_, ?_, isLeafB_eq⟩
+  · intro R a t h
+    rw [isLeaf_of_sub h, List.isEmpty_iff]
+  · intro i n at' l r
+    cases l <;> cases r <;> simp [isLeafB]
+
+example : isLeaf exTree [1] = true ∧ isLeaf exTree [0] = false
+    ∧ isLeafB exBin = false ∧ isLeafB (.node 1 ['2'] [] .nil .nil) = true := by decide
+
+/-- `depth` = length of the address + 1 = 1 + number of ancestors. -/
+theorem depth_eq (a : Addr) : depth a = a.length + 1 ∧ depth a = 1 + (ancestors a).length := by
+  rw [depth_eq_length, ancestors_eq_spec, length_ancestorsSpec]
+  exact ⟨rfl, Nat.add_comm _ _⟩
+
+example : depth [0, 1, 0] = 4 := by decide
+
+/-- `max_depth` (of any node) = the height of the whole tree = the largest depth of a node of
+    the tree. -/
+theorem max_depth_eq (R : Tree) (a : Addr) :
+    maxDepth R a = Iter.height R ∧
+    (∀ b ∈ subtreeLocs R [], depth b ≤ maxDepth R a) ∧
+    (∃ b ∈ subtreeLocs R [], depth b = maxDepth R a) := by
+  rw [maxDepth_eq_height, subtreeLocs_of_sub (sub_nil R)]
+  refine ⟨rfl, ?_, ?_⟩
+  · intro b hb
+    rcases List.mem_map.1 hb with ⟨x, hx, rfl⟩
+    simpa [depth_eq_length] using locs_length_lt_height R x hx
+  · rcases exists_loc_height R with ⟨x, hx, he⟩
+    exact ⟨[] ++ x, List.mem_map.2 ⟨x, hx, rfl⟩, by simpa [depth_eq_length] using he⟩
+
+example : maxDepth exTree [1] = 4 := by decide
+
+/-- `go_to` between two nodes of one tree = up from `a` to (excluding) the lowest common
+    ancestor, then from it down to `b`. -/
+theorem go_to_eq (R : Tree) (a b : Addr) :
+    goTo ⟨R, a⟩ ⟨R, b⟩ = some
+      (((List.range (a.length - lcpLen a b)).map fun i => a.take (a.length - i))
+        ++ ((List.range (b.length - lcpLen a b + 1)).map fun i => b.take (lcpLen a b + i))) := by
+  have h : ∀ x, (⟨R, x⟩ : Loc).rootId = some R.id := by
+    intro x; simp [Loc.rootId, root_eq_nil, idAt]
+  simp [goTo, h, goToSame_eq_spec, goToSpec]
+
+example : goTo ⟨exTree, [0, 0]⟩ ⟨exTree, [0, 1, 0]⟩ = some [[0, 0], [0], [0, 1], [0, 1, 0]] := by decide
+example : goTo ⟨exTree, [0, 1, 0]⟩ ⟨exTree, [1]⟩ = some [[0, 1, 0], [0, 1], [0], [], [1]] := by decide
+
+/-- the path of `go_to` starts at `a`, ends at `b`, repeats no node, every step is a
+    parent/child link, and it has `dist a b` edges: the unique simple path. -/
+theorem go_to_simple_path (R : Tree) (a b : Addr) :
+    ∃ p, goTo ⟨R, a⟩ ⟨R, b⟩ = some p ∧
+      p.head? = some a ∧ p.getLast? = some b ∧ p.Nodup ∧
+      (∀ i (h : i + 1 < p.length), Linked (p[i]'(by omega)) p[i + 1]) ∧
+      p.length = dist a b + 1 := by
+  refine ⟨goToSpec a b, ?_, goToSpec_head a b, goToSpec_last a b, goToSpec_nodup a b,
+    goToSpec_linked a b, length_goToSpec a b⟩
+  have h : ∀ x, (⟨R, x⟩ : Loc).rootId = some R.id := by
+    intro x; simp [Loc.rootId, root_eq_nil, idAt]
+  simp [goTo, h, goToSame_eq_spec]
+
+example : dist [0, 0] [0, 1, 0] = 3 := by decide
+
+/-- nodes of different trees are refused. -/
+theorem go_to_other_tree_rej (u v : Loc) (h : u.tree.id ≠ v.tree.id) : goTo u v = none := by
+  have hu : u.rootId = some u.tree.id := by simp [Loc.rootId, root_eq_nil, idAt]
+  have hv : v.rootId = some v.tree.id := by simp [Loc.rootId, root_eq_nil, idAt]
+  simp [goTo, hu, hv, h]
+
+example : exTree.id ≠ exTree2.id ∧ goTo ⟨exTree, [0]⟩ ⟨exTree2, [0]⟩ = none := by decide
+
+/-- `diameter` (the nonlocal-maximum recursion with `heapq.nlargest(2, …)`) = the maximum, over
+    the nodes of the subtree, of the sum of the two largest child heights; the BinaryNode version
+    that skips empty slots computes the same number as on the generic view. -/
+theorem diameter_eq :
+    (∀ t : Tree, diameter t = diamSpec t) ∧
+    (∀ (b : BTree) (t : Tree), b.toTrees = [t] → diameterB b = diamSpec t) :=
+  ⟨diameter_eq_diamSpec, fun b t h => by rw [diameterB_eq b t h, diameter_eq_diamSpec]⟩
+
+example : diameter exWide = 5 ∧ diameter exTree = 4 ∧ diameterB exBin = 1 := by decide
+
+end C12
